@@ -1,4 +1,5 @@
 import SiaModel.Codec.Comb
+import SiaModel.Codec.Policy
 import SiaModel.Gen.FactsSchema
 /-!
 # SiaModel.Codec.Irregular — hand-written schema models of irregular codecs
@@ -58,8 +59,11 @@ def resolutionSch : Sch := Sch.seq [
   ("Parent", Gen.encSchema_Types_V2FileContractElement),
   ("Resolution", .ext "Types.V2FileContractResolution.payload")]
 
-/-- environment with the resolution payload -/
-def env1 : Env := Env.default.with "Types.V2FileContractResolution.payload" (resolutionPayload Env.default)
+/-- environment with the `SpendPolicy` codec (`Codec/Policy.lean`) -/
+def envP : Env := Env.default.with "Types.SpendPolicy" (Policy.codec Env.default)
+
+/-- … and the resolution payload -/
+def env1 : Env := envP.with "Types.V2FileContractResolution.payload" (resolutionPayload envP)
 
 /-- environment with resolutions -/
 def env2 : Env := env1.with "Types.V2FileContractResolution" (Codec.ofSch env1 resolutionSch)
@@ -85,7 +89,8 @@ def handSchemas : List (String × Sch × Sch) := [
   ("Rhp2_RPCReadResponse", rhp2ReadResponse, rhp2ReadResponse),
   ("Rhp3_RPCExecuteProgramRequest", rhp3ExecuteProgramRequest, rhp3ExecuteProgramRequest),
   ("Types_V2FileContractResolution", .ext "Types.V2FileContractResolution", .ext "Types.V2FileContractResolution"),
-  ("Types_V2Transaction", .ext "Types.V2Transaction", .ext "Types.V2Transaction")
+  ("Types_V2Transaction", .ext "Types.V2Transaction", .ext "Types.V2Transaction"),
+  ("Types_SpendPolicy", .ext "Types.SpendPolicy", .ext "Types.SpendPolicy")
 ]
 
 end Sia.Codec.Irregular
